@@ -1,4 +1,4 @@
-CONSTANTS Ws = {2, 3}  Hs = {2, 3}  SBs = {0, 1}  TABs = {1, 2}  MaxOps = 6
+CONSTANTS Ws = {1, 2, 3}  Hs = {1, 2}  SBs = {0, 1}  TABs = {1}  MaxOps = 5
   Kind = "fb"  Bug = ""  Props = {"C18"}  EmitMode = "none"  EmitMod = 1
 CONSTANT Bytes <- MCBytes
 CONSTANT CurVals <- MCCurVals
